@@ -127,8 +127,11 @@ func asParamMigratorsWithDefaults(newName string, defaults []string, paramMigrat
 			var param string
 			if i < len(oldParams) {
 				param = oldParams[i]
-			} else {
+			} else if defaults[i] != "" {
 				param = defaults[i]
+			} else {
+				// a parameter without a default is required
+				return "", fmt.Errorf("don't know how to migrate call to %s with %d parameters", funcName, len(oldParams))
 			}
 			newParams[i] = paramMigrators[i](param)
 		}
